@@ -92,6 +92,10 @@ def cfg_rst(n, record="rst_clko", **kw):
     return dict({"record": record, "handle_clocking": record == "rst_clko", "startup": n}, **kw)
 
 
+def has_rst(config):
+    return (config or {}).get("record") in ("rst", "rst_clko")
+
+
 def config_classes(seed, quick):
     """[(name, config)] — one configuration per value class in the quick tier (rotated by seed), all in thorough."""
     small = STARTUP_SMALL if not quick else [STARTUP_SMALL[seed % len(STARTUP_SMALL)]]
@@ -115,6 +119,7 @@ def config_classes(seed, quick):
         ("platform registers ignored (use_platform_registers=False)",
          {"platform": {"extra": {0x16: v}, "raw_domain": None}, "use_platform_registers": False}),
         ("DomainRenamer usb->phyb", cfg_rst(3, "rst", domain="phyb")),
+        ("clk.i: PHY-provided clock drives the usb domain (handle_clocking)", {"record": "clki", "handle_clocking": True}),
     ]
     return out
 
@@ -135,13 +140,15 @@ def config_constants(config, maxlen=5, max_stall=2):
 
 
 def split_at_reset(trace):
-    """A domain reset (with RESETB wired to the PHY) starts a fresh execution: cut the trace there."""
+    """A domain reset (with RESETB wired to the PHY) starts a fresh execution: cut the trace there.  The reset
+    record itself stays as the first record of the new segment (UlpiRegTrace checks RESETB on it; the other trace
+    specifications get it stripped, see `validate`)."""
     segs, cur = [], []
     for r in trace:
         if r.get("rst"):
             if cur:
                 segs.append(cur)
-            cur = []
+            cur = [r]
         else:
             cur.append(r)
     if cur:
@@ -462,17 +469,45 @@ def run_scripts(rep, scripts, config=None):
 FIELDS = {
     "UlpiRxTrace": ("dir", "nxt", "di", "rr", "rxv", "rxd", "rxa", "ls", "vv", "sv", "se", "rxe", "hd", "idd"),
     "UlpiTxTrace": ("dir", "nxt", "txv", "txd", "opm", "do", "oe", "stp", "txr"),
-    "UlpiRegTrace": ("dir", "nxt", "txv", "do", "oe", "stp", "r4", "ra", "p1", "p2", "x1", "x2") + CTRL_KEYS_T,
+    "UlpiRegTrace": ("rst", "rsto", "dir", "nxt", "txv", "do", "oe", "stp", "r4", "ra", "p1", "p2", "x1", "x2") + CTRL_KEYS_T,
 }
 
 
-def validate(rep, module, cfg, items, classify):
-    """validate_group + machinery guard: an Env-legality rejection is a harness error, not a violation."""
-    from ..core import Machinery
+def validate_all(rep, jobs):
+    """jobs: [(module, cfg, items, classify)] — the TLC runs of all jobs are executed concurrently (a few JVMs at a
+    time: the configuration sweep has one constant set per configuration), the verdicts are then processed in order."""
+    from concurrent.futures import ThreadPoolExecutor
+    prepared = [_prepare(module, items) for module, cfg, items, classify in jobs]
+    small = [k for k, (module, cfg, items, classify) in enumerate(jobs) if 0 < len(prepared[k][0]) <= 400]
+    with ThreadPoolExecutor(max_workers=4) as ex:
+        futs = {k: ex.submit(tlc.validate_traces, SPEC_DIR, jobs[k][0], jobs[k][1], [t for t, _ in prepared[k][0]])
+                for k in small}
+        results = {}
+        for k, f in futs.items():
+            results[k] = f.result()
+    for k, (module, cfg, items, classify) in enumerate(jobs):
+        validate(rep, module, cfg, items, classify, precomputed=results.get(k), prepared=prepared[k])
 
+
+def _prepare(module, items):
+    if module != "UlpiRegTrace":
+        # reset records are only understood by UlpiRegTrace; a segment whose PHY was not reset with the link (RESETB not
+        # asserted: reported by C24) is outside the Env of the other properties
+        items = [(t[1:] if t and t[0].get("rst") else t, m) for t, m in items
+                 if not (t and t[0].get("rst") and not t[0].get("rsto"))]
+        items = [(t, m) for t, m in items if t]
     full = [t for t, _ in items]
     keys = FIELDS[module]
     items = [([{k: r.get(k, 0) for k in keys} for r in t], dict(m, _i=i)) for i, (t, m) in enumerate(items)]
+    return items, full
+
+
+def validate(rep, module, cfg, items, classify, precomputed=None, prepared=None):
+    """validate_group + machinery guard: an Env-legality rejection is a harness error, not a violation."""
+    from ..core import Machinery
+    from .. import pipeline
+
+    items, full = prepared if prepared is not None else _prepare(module, items)
 
     def cls(trace, matched, status, meta):
         trace = full[meta["_i"]]
@@ -482,7 +517,14 @@ def validate(rep, module, cfg, items, classify):
             raise Machinery("stimulus left the specification's Env (%s) at step %d of %s: %s"
                             % (status, matched, meta, ctx))
         return classify(trace, matched, status, meta)
-    return validate_group(rep, SPEC_DIR, module, cfg, items, classify=cls, what_prefix="UTMITranslator ")
+    if precomputed is None:
+        return validate_group(rep, SPEC_DIR, module, cfg, items, classify=cls, what_prefix="UTMITranslator ")
+    real = tlc.validate_traces
+    pipeline.tlc.validate_traces = lambda *a, **k: precomputed
+    try:
+        return validate_group(rep, SPEC_DIR, module, cfg, items, classify=cls, what_prefix="UTMITranslator ")
+    finally:
+        pipeline.tlc.validate_traces = real
 
 
 # ================================================================================================
@@ -577,18 +619,21 @@ def check_C22(rep):
 
     # 2d. configuration sweep: RESETB/clock records, domain reset in mid-receive, renamed / raw clock domains
     classes = [c for c in config_classes(rep.seed, quick) if "record" in c[1]]
+    jobs = []
     for name, config in classes:
         cscripts = []
         for k in range(3 if quick else 25):
             n = 200
             sc = {"n": n, "choices": phy_choices(rng, n, rx_rate=0.15, acc_p=1.0, clean=True, maxlen=8),
-                  "phy": {"clean_rx": True, "max_stall": 3}, "resets": set(rng.sample(range(10, n - 30), 2))}
+                  "phy": {"clean_rx": True, "max_stall": 3},
+                  "resets": set(rng.sample(range(10, n - 30), 2)) if has_rst(config) else set()}
             cscripts.append((sc, {"class": "clean", "origin": "config-sweep", "config": name}))
         citems = run_scripts(rep, cscripts, config)
         for trace, meta in citems:
             rx_nontriv(rep, trace)
             rep.nontriv(("config", name.split(" startup")[0]))
-        validate(rep, "UlpiRxTrace", cfg, citems, classify_rx)
+        jobs.append(("UlpiRxTrace", cfg, citems, classify_rx))
+    validate_all(rep, jobs)
     rep.extra["configurations"] = ["base: plain record, handle_clocking=False"] + [n for n, _ in classes] + \
         ["ULPIRegisterWindow + ULPIRxEventDecoder (register reads)"]
 
@@ -708,12 +753,13 @@ def check_C23(rep):
     # configuration sweep: RESETB/clock records with the start-up wait, domain resets in mid-packet, platform raw clock
     # domain, renamed clock domain (the transmit path itself has no parameters)
     classes = [c for c in config_classes(rep.seed, quick) if "record" in c[1]]
+    jobs = []
     for name, config in classes:
         cscripts = []
         for k in range(3 if quick else 25):
             sc = tx_script(rng, 240, rng.randint(3, 6), rng.choice([1, 3, 6]), [0, 0, 1, 2, 2, 3],
                            rng.choice([0.4, 1.0]), rng.choice([0.0, 0.05]))
-            sc["resets"] = set(rng.sample(range(10, 180), rng.choice([1, 2])))
+            sc["resets"] = set(rng.sample(range(10, 180), rng.choice([1, 2]))) if has_rst(config) else set()
             sc["starts"] = set(sc["starts"]) | {1} | {t + rng.randint(1, 3) for t in sc["resets"]}
             sc["packets"] = sc["packets"] + packets(rng, 3, 3)
             cscripts.append((sc, {"class": "clean", "origin": "config-sweep", "config": name}))
@@ -722,10 +768,11 @@ def check_C23(rep):
             tx_nontriv(rep, trace)
             rep.nontriv(("config", name.split(" startup")[0]))
         nx = len(config.get("extra", [])) + len((config.get("platform") or {}).get("extra") or {})
-        cfg = tlc.render_cfg(_cfg("UlpiTxTrace.cfg.tmpl"), {"MaxStart": 8 + config["startup"] + 4 + 12 * nx,
-                                                             "Startup": config["startup"]})
-        validate(rep, "UlpiTxTrace", cfg, citems, classify_tx)
+        cfg = tlc.render_cfg(_cfg("UlpiTxTrace.cfg.tmpl"), {"MaxStart": 8 + (config.get("startup") or 0) + 4 + 12 * nx,
+                                                             "Startup": config.get("startup") or 0})
+        jobs.append(("UlpiTxTrace", cfg, citems, classify_tx))
         items += citems
+    validate_all(rep, jobs)
     rep.extra["configurations"] = ["base: plain record, handle_clocking=False"] + [n for n, _ in classes]
     sent = sum(m["packets_sent"] for _, m in items)
     rep.notes.append("%d UTMI packets completed on the real module in %d traces" % (sent, len(items)))
@@ -872,6 +919,7 @@ def check_C24(rep):
     classes = config_classes(rep.seed, quick)
     if not quick:
         classes.append(("real 1 ms start-up wait (60000 cycles)", cfg_rst(None, "rst")))
+    jobs = []
     for name, config in classes:
         real = "real 1 ms" in name
         xs = [a for a, k, _, _ in config.get("extra", []) if k == "sig"]
@@ -884,7 +932,7 @@ def check_C24(rep):
                 sc["choices"] = sc["choices"][:300]
                 sc["starts"] = {50, 60100}
                 sc["ctrl"] = {20: {"opm": 1}, 60150: {"opm": 2, "idpu": 1}}
-            if "record" in config and not real:
+            if has_rst(config) and not real:
                 sc["resets"] = set(rng.sample(range(20, n - 80), rng.choice([1, 1, 2])))
                 # a transmission and a pending register change wait right behind every reset
                 sc["starts"] = set(sc["starts"]) | {1} | {t + rng.randint(1, 3) for t in sc["resets"]}
@@ -900,11 +948,33 @@ def check_C24(rep):
             reg_nontriv(rep, trace)
             rep.nontriv(("config", name.split(" startup")[0]))
         consts = config_constants(dict(config, startup=60000) if real else config, maxlen, max_stall)
-        cfg = tlc.render_cfg(_cfg("UlpiRegTrace.cfg.tmpl"), consts)
-        validate(rep, "UlpiRegTrace", cfg, citems, classify_reg)
+        jobs.append(("UlpiRegTrace", tlc.render_cfg(_cfg("UlpiRegTrace.cfg.tmpl"), consts), citems, classify_reg))
         items += citems
     rep.extra["configurations"] = ["base: plain record, handle_clocking=False, no extra registers"] + \
         [n for n, _ in classes] + ["ULPIRegisterWindow alone (arguments changed right after the request strobe)"]
+
+    # documented rejections of unsupported configurations (elaboration contract; DRIFT information only)
+    from amaranth import Signal, Fragment
+    from amaranth.hdl.rec import Record
+    from luna.gateware.interface.ulpi import UTMITranslator
+    base = [("data", [("i", 8), ("o", 8), ("oe", 1)]), ("nxt", [("i", 1)]), ("stp", [("o", 1)]), ("dir", [("i", 1)])]
+    probes = []
+    for label, layout in (("bidirectional clk (i/o/oe)", base + [("clk", [("i", 1), ("o", 1), ("oe", 1)])]),
+                          ("clk that is no I/O record", base + [("clk", 1)])):
+        try:
+            Fragment.get(UTMITranslator(ulpi=Record(layout), handle_clocking=True), None)
+            probes.append("%s: elaborated although the doc-string promises a TypeError" % label)
+        except TypeError:
+            pass
+    try:
+        UTMITranslator(ulpi=Record(base), handle_clocking=False).add_extra_register(0x16, Signal(8))
+        probes.append("add_extra_register(Signal) without default_value accepted (documented: ValueError)")
+    except ValueError:
+        pass
+    rep.drift.extend(probes)
+    rep.notes.append("unsupported configurations rejected as documented: bidirectional clk, non-I/O clk (TypeError), "
+                     "Signal-valued extra register without default (ValueError)" if not probes else
+                     "elaboration-contract deviations: %s" % probes)
 
     # 4. the register window as a part: write/read requests whose address / write_data inputs change right after
     #    the request strobe ("we'll stop latching these in as soon as we're busy"), NXT delays, DIR interruptions
@@ -931,7 +1001,8 @@ def check_C24(rep):
     consts = config_constants({"extra": [(0x16, "const", 0, None), (0x31, "const", 0, None)],
                                "phy_regs": {0x16: 0x11, 0x31: 0x22}}, maxlen, max_stall)
     consts["WBound"] += 60          # requests queue up behind each other in this bench
-    validate(rep, "UlpiRegTrace", tlc.render_cfg(_cfg("UlpiRegTrace.cfg.tmpl"), consts), witems, classify_reg)
+    jobs.append(("UlpiRegTrace", tlc.render_cfg(_cfg("UlpiRegTrace.cfg.tmpl"), consts), witems, classify_reg))
+    validate_all(rep, jobs)
     clean = [(t, m) for t, m in items if m["class"] == "clean"]
     rep.notes.append("%d clean / %d raw+witness traces; PHY register writes observed: %d" % (
         len(clean), len(items) - len(clean), sum(1 for t, _ in items for i in range(1, len(t))
